@@ -83,4 +83,672 @@ Proof.
   vm_compute. discriminate.
 Qed.
 
+
+(** * extraction of un-nested inputs gives wide-canonical lists *)
+Lemma scan_app_w nb ms l1 : forall l2 c,
+  pf_canon_scan_w nb ms (l1 ++ l2) c
+  = match pf_canon_scan_w nb ms l1 c with Some c' => pf_canon_scan_w nb ms l2 c' | None => None end.
+Proof.
+  induction l1 as [|e l1 IH]; intros l2 c; cbn [app pf_canon_scan_w]; [reflexivity|].
+  destruct (pf_canon_step_w nb ms c e); [apply IH|reflexivity].
+Qed.
+
+Lemma step_shift_w nb ms c v : PC.prevok ms c -> 1 <= v <= ms ->
+  pf_canon_step_w nb ms c (EV_TIME_SHIFT, v) = Some (PC.shifted c v v).
+Proof. intros H1 H2. apply step_implies_w. now apply PC.step_shift. Qed.
+
+Lemma step_vel_w nb ms c v : nb <> 0 -> cs_prev c <> PVel -> 1 <= v -> v <> cs_vbin c ->
+  pf_canon_step_w nb ms c (EV_VELOCITY, v)
+  = Some (mkPfCst (cs_step c) (cs_open c) v PVel (cs_offkey c) (cs_onp c)).
+Proof. intros. apply step_implies_w. now apply PC.step_vel. Qed.
+
+Lemma step_on_w nb ms c v : (nb <> 0 -> cs_vbin c <> 0) ->
+  match cs_onp c with None => True | Some q => q <= v end ->
+  pf_canon_step_w nb ms c (EV_NOTE_ON, v)
+  = Some (mkPfCst (cs_step c) (cs_open c ++ [(v, cs_step c)]) (cs_vbin c) POn (cs_offkey c) (Some v)).
+Proof.
+  intros Hvb Honp. unfold pf_canon_step_w. change (EV_NOTE_ON =? EV_NOTE_ON) with true. cbn iota.
+  replace (negb (nb =? 0) && (cs_vbin c =? 0)) with false by lia.
+  destruct (cs_onp c) as [q|]; [replace (q <=? v) with true by lia|]; reflexivity.
+Qed.
+
+Lemma step_off_w nb ms c v q s op' : cs_prev c <> PVel -> cs_onp c = None ->
+  take_open v (cs_open c) = Some ((q, s), op') -> key_le (cs_offkey c) s q = true -> s < cs_step c ->
+  pf_canon_step_w nb ms c (EV_NOTE_OFF, v) = Some (mkPfCst (cs_step c) op' (cs_vbin c) POff (Some (s, q)) None).
+Proof.
+  intros Hp Honp Htk Hk Hs. unfold pf_canon_step_w.
+  change (EV_NOTE_OFF =? EV_NOTE_ON) with false. change (EV_NOTE_OFF =? EV_NOTE_OFF) with true. cbn iota.
+  rewrite Honp, Htk, Hk. replace (s <? cs_step c) with true by lia.
+  destruct (cs_prev c); try reflexivity. congruence.
+Qed.
+
+Lemma scan_repeat_shift_w nb ms v : 1 <= ms -> 1 <= v <= ms -> forall n c, PC.prevok ms c ->
+  pf_canon_scan_w nb ms (repeat (EV_TIME_SHIFT, ms) n ++ [(EV_TIME_SHIFT, v)]) c
+  = Some (PC.shifted c (Z.of_nat n * ms + v) v).
+Proof.
+  intros Hms Hv n c Hc. apply scan_implies_w. now apply PC.scan_repeat_shift.
+Qed.
+
+Lemma scan_pf_shifts_w nb ms d c : 1 <= ms -> 0 < d -> PC.prevok ms c ->
+  exists u, pf_canon_scan_w nb ms (pf_shifts ms d) c = Some (PC.shifted c d u).
+Proof.
+  intros Hms Hd Hc. destruct (PC.scan_pf_shifts nb ms d c Hms Hd Hc) as (u & Hu).
+  exists u. now apply scan_implies_w.
+Qed.
+
+Lemma map_const_shift {A B} (f : A -> B) k M T :
+  (forall b, In b M -> f b = k) -> map f M ++ k :: T = k :: map f M ++ T.
+Proof.
+  induction M as [|b M IH]; intros H; cbn [map app]; [reflexivity|].
+  rewrite (H b (or_introl eq_refl)). f_equal. apply IH. intros; apply H; now right.
+Qed.
+
+Lemma split_first_pitch q (L : list tev) :
+  (forall b, In b L -> n_pitch (te_note b) <> q) \/
+  exists A o B, L = A ++ o :: B /\ n_pitch (te_note o) = q /\ forall a, In a A -> n_pitch (te_note a) <> q.
+Proof.
+  induction L as [|x L IH]; [left; intros b []|].
+  destruct (Z.eq_dec (n_pitch (te_note x)) q) as [E|E].
+  - right. exists [], x, L. split; [reflexivity|]. split; [exact E|intros a []].
+  - destruct IH as [IH|(A & o & B & -> & Ho & HA)].
+    + left. intros b [<-|Hb]; [exact E|now apply IH].
+    + right. exists (x :: A), o, B. split; [reflexivity|]. split; [exact Ho|].
+      intros a [<-|Ha]; [exact E|now apply HA].
+Qed.
+
+Section StageW.
+  Variable sel : list note.
+  Variables start nb ms : Z.
+  Hypothesis Hms : 1 <= ms.
+  Hypothesis Hnb : nb = 0 \/ 1 <= nb.
+  Hypothesis Hlen : forall n, In n sel -> n_qstart n < n_qend n.
+  Hypothesis Hvel : forall n, In n sel -> MIN_MIDI_VELOCITY <= n_vel n.
+  Hypothesis Hord : forall i j a b, (i < j)%nat -> nth_error sel i = Some a -> nth_error sel j = Some b ->
+    n_qstart a < n_qstart b \/ (n_qstart a = n_qstart b /\ n_pitch a <= n_pitch b).
+  Hypothesis Hnest : forall a b, In a sel -> In b sel -> n_pitch a = n_pitch b ->
+    n_qstart a < n_qstart b -> n_qend a <= n_qend b.
+
+  Lemma valid_ord x y : valid sel x -> valid sel y -> te_idx x < te_idx y ->
+    n_qstart (te_note x) < n_qstart (te_note y) \/
+    (n_qstart (te_note x) = n_qstart (te_note y) /\ n_pitch (te_note x) <= n_pitch (te_note y)).
+  Proof. intros (Hx0 & Hx & _) (Hy0 & Hy & _) Hlt. eapply Hord; [|exact Hx|exact Hy]. lia. Qed.
+
+  Lemma valid_in t : valid sel t -> In (te_note t) sel.
+  Proof. intros (_ & Hx & _). eapply nth_error_In; eassumption. Qed.
+
+  Definition okey (o : tev) : Z * Z := (n_pitch (te_note o), te_step o - start).
+
+  Definition lowc (c : pf_cst) (t : tev) : Prop :=
+    (te_off t = true -> cs_onp c = None /\
+       key_le (cs_offkey c) (n_qstart (te_note t) - start) (n_pitch (te_note t)) = true) /\
+    (te_off t = false -> match cs_onp c with None => True | Some q => q <= n_pitch (te_note t) end).
+
+  Lemma stageW : forall R O cur vbin c,
+    StronglySorted tlt R -> StronglySorted tlt O ->
+    Forall (valid sel) R -> Forall (valid sel) O -> Forall (fun o => te_off o = false) O ->
+    (forall o, In o O -> In (off_of (te_idx o) (te_note o)) R /\ forall t, In t R -> tlt o t) ->
+    (forall t, In t R -> te_off t = true ->
+       (exists o, In o O /\ t = off_of (te_idx o) (te_note o)) \/ In (on_of (te_idx t) (te_note t)) R) ->
+    (forall t, In t R -> te_off t = false -> In (off_of (te_idx t) (te_note t)) R) ->
+    (forall t, In t R -> cur <= te_step t) ->
+    cs_step c = cur - start -> cs_open c = map okey O -> cs_vbin c = vbin ->
+    (cs_prev c = PStart \/ cs_prev c = POff \/ (cs_prev c = POn /\ O <> [])) ->
+    (forall t, In t R -> te_step t = cur -> lowc c t) ->
+    exists cf, pf_canon_scan_w nb ms (pf_loop nb ms R cur vbin) c = Some cf /\ cs_open cf = [] /\
+               (cs_prev cf = PStart \/ cs_prev cf = POff).
+  Proof.
+    induction R as [|t R' IH]; intros O cur vbin c HsR HsO HvR HvO HoffO Hc He Hg Hcur.
+    - intros Hstep Hopen Hvb Hprev Hlow. assert (O = []) by (destruct O as [|o O']; [reflexivity|]; destruct (Hc o (or_introl eq_refl)) as ([] & _)).
+      subst O. cbn [pf_loop pf_canon_scan_w]. exists c. split; [reflexivity|]. split; [exact Hopen|].
+      destruct Hprev as [H|[H|(_ & H)]]; auto. contradiction.
+    - inversion HsR as [|? ? HsR' HfR]; subst. rewrite Forall_forall in HfR.
+      inversion HvR as [|? ? Hvt HvR']; subst.
+      intros Hstep Hopen Hvb Hprev Hlow.
+      assert (Hcur0 : cur <= te_step t) by (apply Hcur; now left).
+      assert (Hcur' : (if cur <? te_step t then te_step t else cur) = te_step t)
+        by (destruct (cur <? te_step t) eqn:E; lia).
+      assert (Hnext : forall u, In u R' -> te_step t <= te_step u).
+      { intros u Hu. specialize (HfR u Hu). unfold tlt in HfR. lia. }
+      assert (Hpok : PC.prevok ms c).
+      { split; [intros H|intros u H]; rewrite H in Hprev; destruct Hprev as [H'|[H'|(H' & _)]]; discriminate. }
+      cbn [pf_loop]. rewrite Hcur'.
+      (* the state after the time shifts *)
+      assert (Hsh : exists c1,
+        (forall rest, pf_canon_scan_w nb ms ((if cur <? te_step t then pf_shifts ms (te_step t - cur) else []) ++ rest) c
+                      = pf_canon_scan_w nb ms rest c1) /\
+        cs_step c1 = te_step t - start /\ cs_open c1 = cs_open c /\ cs_vbin c1 = vbin /\ cs_prev c1 <> PVel /\
+        (forall t', In t' (t :: R') -> te_step t' = te_step t -> lowc c1 t')).
+      { destruct (cur <? te_step t) eqn:E.
+        - destruct (scan_pf_shifts_w nb ms (te_step t - cur) c Hms ltac:(lia) Hpok) as (u & Hu).
+          exists (PC.shifted c (te_step t - cur) u). split; [intros rest; now rewrite scan_app_w, Hu|].
+          unfold PC.shifted. cbn [cs_step cs_open cs_vbin cs_prev].
+          split; [lia|]. split; [reflexivity|]. split; [exact Hvb|]. split; [discriminate|].
+          intros t' _ _. split; intros _; [split; reflexivity|exact I].
+        - exists c. assert (cur = te_step t) by lia.
+          split; [intros; reflexivity|]. split; [lia|]. split; [reflexivity|]. split; [exact Hvb|].
+          split; [apply Hpok|]. intros t' Ht' Hs'. apply Hlow; [exact Ht'|lia]. }
+      destruct Hsh as (c1 & Hc1 & Hst1 & Hop1 & Hvb1 & Hpv1 & Hlow1).
+      rewrite Hc1. clear Hc1.
+      destruct (te_off t) eqn:Eoff.
+      + (* NOTE_OFF *)
+        cbn [negb]. rewrite andb_false_r. cbn [andb app pf_canon_scan_w].
+        destruct (He t (or_introl eq_refl) Eoff) as [(o & HoO & Hto)|Hon].
+        2:{ exfalso. destruct Hon as [Hon|Hon].
+            - apply (f_equal te_off) in Hon. cbn in Hon. congruence.
+            - specialize (HfR _ Hon). pose proof (valid_len sel Hlen t Hvt). destruct Hvt as (_ & _ & Hst).
+              rewrite Eoff in Hst. unfold tlt in HfR. cbn in HfR. lia. }
+        destruct (in_split o O HoO) as (O1 & O2 & HO). subst O.
+        assert (Hvo : valid sel o) by (rewrite Forall_forall in HvO; now apply HvO).
+        assert (Hoo : te_off o = false) by (rewrite Forall_forall in HoffO; now apply HoffO).
+        assert (Hidx : te_idx t = te_idx o /\ te_note t = te_note o) by (rewrite Hto; split; reflexivity).
+        destruct Hidx as (Hti & Htn).
+        destruct (StronglySorted_app_inv _ _ _ HsO) as (_ & _ & Hcross).
+        assert (Hsteps : te_step t = n_qend (te_note o) /\ te_step o = n_qstart (te_note o)).
+        { destruct Hvo as (_ & _ & Hso). rewrite Hoo in Hso. rewrite Hto. cbn. auto. }
+        destruct Hsteps as (Hst & Hso). pose proof (valid_len sel Hlen o Hvo) as Hl.
+        (* an earlier open note of the same pitch started on the same step *)
+        assert (HK : forall b, In b O1 -> n_pitch (te_note b) = n_pitch (te_note o) -> te_step b = te_step o).
+        { intros b Hb Hp.
+          assert (HbO : In b (O1 ++ o :: O2)) by (apply in_or_app; now left).
+          assert (Hvb' : valid sel b) by (rewrite Forall_forall in HvO; now apply HvO).
+          assert (Hob : te_off b = false) by (rewrite Forall_forall in HoffO; now apply HoffO).
+          pose proof (Hcross b o Hb (or_introl eq_refl)) as Hlt.
+          assert (Hneq : te_idx b <> te_idx o).
+          { intros Heq. pose proof (valid_same_idx _ _ _ Hvb' Hvo Heq) as Hnote.
+            assert (b = o) by (rewrite (valid_eta _ b Hvb'), (valid_eta _ o Hvo), Hoo, Hob, Heq, Hnote; reflexivity).
+            subst b. exact (tlt_irrefl _ Hlt). }
+          destruct (Hc b HbO) as (Hoffb & _).
+          assert (HoffR : In (off_of (te_idx b) (te_note b)) R').
+          { destruct Hoffb as [Heq|H]; [|exact H]. rewrite Hto in Heq.
+            apply (f_equal te_idx) in Heq. cbn in Heq. congruence. }
+          pose proof (HfR _ HoffR) as Htb. rewrite Hto in Htb. unfold tlt in Htb, Hlt.
+          cbn [te_step te_idx te_off off_of] in Htb.
+          assert (Hsb : te_step b = n_qstart (te_note b)) by (destruct Hvb' as (_ & _ & H'); now rewrite Hob in H').
+          destruct (Z.eq_dec (te_step b) (te_step o)) as [E|E]; [exact E|exfalso].
+          assert (Hlt' : n_qstart (te_note b) < n_qstart (te_note o)) by lia.
+          pose proof (Hnest _ _ (valid_in b Hvb') (valid_in o Hvo) Hp Hlt') as Hn.
+          assert (Hii : te_idx o < te_idx b) by (destruct Htb as [H|(H1 & [H|(_ & H & _)])]; [lia|exact H|discriminate]).
+          pose proof (valid_ord o b Hvo Hvb' Hii). lia. }
+        assert (Htk : take_open (n_pitch (te_note t)) (map okey (O1 ++ o :: O2))
+                      = Some (okey o, map okey (O1 ++ O2))).
+        { rewrite Htn. destruct (split_first_pitch (n_pitch (te_note o)) O1) as [Hnone|(A & o' & B & HO1 & Hpo' & HA)].
+          - rewrite !map_app. cbn [map]. apply (PC.take_open_split _ _ (okey o)); [|reflexivity].
+            intros y Hy Hp. apply in_map_iff in Hy. destruct Hy as (b & <- & Hb). exact (Hnone b Hb Hp).
+          - subst O1.
+            assert (Hso' : te_step o' = te_step o).
+            { apply HK; [apply in_or_app; right; now left|exact Hpo']. }
+            assert (Hko' : okey o' = okey o) by (unfold okey; rewrite Hpo', Hso'; reflexivity).
+            assert (HB : forall b, In b B -> okey b = okey o).
+            { intros b Hb.
+              assert (HsO' := HsO). rewrite <- app_assoc in HsO'. cbn [app] in HsO'.
+              destruct (StronglySorted_app_inv _ _ _ HsO') as (_ & Hs2 & _).
+              apply StronglySorted_inv in Hs2. destruct Hs2 as (Hs3 & Hf3). rewrite Forall_forall in Hf3.
+              assert (Hlt1 : tlt o' b) by (apply Hf3, in_or_app; now left).
+              destruct (StronglySorted_app_inv _ _ _ Hs3) as (_ & _ & Hcr).
+              assert (Hlt2 : tlt b o) by (apply Hcr; [exact Hb|now left]).
+              assert (Hin1 : In o' ((A ++ o' :: B) ++ o :: O2))
+                by (apply in_or_app; left; apply in_or_app; right; now left).
+              assert (Hin2 : In b ((A ++ o' :: B) ++ o :: O2))
+                by (apply in_or_app; left; apply in_or_app; right; now right).
+              rewrite Forall_forall in HvO, HoffO.
+              pose proof (HvO _ Hin1) as Hv1. pose proof (HvO _ Hin2) as Hv2.
+              pose proof (HoffO _ Hin1) as Ho1. pose proof (HoffO _ Hin2) as Ho2.
+              unfold tlt in Hlt1, Hlt2. rewrite Ho1, Ho2 in Hlt1. rewrite Ho2, Hoo in Hlt2.
+              assert (Hsb : te_step b = te_step o) by lia.
+              assert (Hi1 : te_idx o' < te_idx b) by (destruct Hlt1 as [H|(_ & [H|(_ & _ & H)])]; [lia|exact H|discriminate]).
+              assert (Hi2 : te_idx b < te_idx o) by (destruct Hlt2 as [H|(_ & [H|(_ & _ & H)])]; [lia|exact H|discriminate]).
+              pose proof (valid_ord o' b Hv1 Hv2 Hi1) as Q1. pose proof (valid_ord b o Hv2 Hvo Hi2) as Q2.
+              assert (S1 : te_step o' = n_qstart (te_note o')) by (destruct Hv1 as (_ & _ & H'); now rewrite Ho1 in H').
+              assert (S2 : te_step b = n_qstart (te_note b)) by (destruct Hv2 as (_ & _ & H'); now rewrite Ho2 in H').
+              unfold okey. f_equal; lia. }
+            rewrite <- app_assoc. cbn [app]. rewrite (map_app okey A). cbn [map].
+            rewrite (PC.take_open_split _ _ (okey o') (map okey (B ++ o :: O2))).
+            + rewrite Hko'. do 2 f_equal. rewrite !map_app. cbn [map]. rewrite <- app_assoc. cbn [app].
+              f_equal. rewrite Hko'. apply map_const_shift. exact HB.
+            + intros y Hy Hp. apply in_map_iff in Hy. destruct Hy as (a & <- & Ha). exact (HA a Ha Hp).
+            + unfold okey. cbn [fst]. exact Hpo'. }
+        destruct (Hlow1 t (or_introl eq_refl) eq_refl) as (Hlo & _). destruct (Hlo Eoff) as (Honp1 & Hkey1).
+        rewrite (step_off_w nb ms c1 _ (n_pitch (te_note o)) (te_step o - start) (map okey (O1 ++ O2))); auto.
+        2:{ rewrite Hop1, Hopen. exact Htk. }
+        2:{ rewrite Htn, <- Hso in Hkey1. exact Hkey1. }
+        2:{ lia. }
+        apply (IH (O1 ++ O2) (te_step t) vbin); auto.
+        * eapply StronglySorted_remove; exact HsO.
+        * rewrite Forall_forall in *. intros x Hx. apply HvO. apply in_app_or in Hx. apply in_or_app.
+          destruct Hx; [now left|right; now right].
+        * rewrite Forall_forall in *. intros x Hx. apply HoffO. apply in_app_or in Hx. apply in_or_app.
+          destruct Hx; [now left|right; now right].
+        * intros o' Ho'.
+          assert (Ho'O : In o' (O1 ++ o :: O2)).
+          { apply in_app_or in Ho'. apply in_or_app. destruct Ho'; [now left|right; now right]. }
+          destruct (Hc o' Ho'O) as (Hoff' & Hlt'). split; [|intros u Hu; apply Hlt'; now right].
+          destruct Hoff' as [Heq|H]; [|exact H]. exfalso.
+          rewrite Hto in Heq. injection Heq as _ Hi Hn.
+          assert (Hvo' : valid sel o') by (rewrite Forall_forall in HvO; now apply HvO).
+          assert (Hoo' : te_off o' = false) by (rewrite Forall_forall in HoffO; now apply HoffO).
+          assert (o' = o).
+          { rewrite (valid_eta _ o' Hvo'), (valid_eta _ o Hvo), Hoo, Hoo'. congruence. }
+          subst o'. apply in_app_or in Ho'. destruct Ho' as [H1|H2].
+          -- exact (tlt_irrefl _ (Hcross o o H1 (or_introl eq_refl))).
+          -- apply StronglySorted_app_inv in HsO. destruct HsO as (_ & Hs2 & _).
+             inversion Hs2 as [|? ? _ Hf2]; subst. rewrite Forall_forall in Hf2.
+             exact (tlt_irrefl _ (Hf2 o H2)).
+        * intros u Hu Huoff. destruct (He u (or_intror Hu) Huoff) as [(o'' & Ho'' & Hu'')|Hon].
+          -- left. exists o''. split; [|exact Hu''].
+             apply in_app_or in Ho''. apply in_or_app. destruct Ho'' as [H|[H|H]]; [now left| |now right].
+             exfalso. subst o''. rewrite <- Hto in Hu''. subst u. exact (tlt_irrefl _ (HfR t Hu)).
+          -- right. destruct Hon as [Heq|H]; [|exact H].
+             apply (f_equal te_off) in Heq. cbn in Heq. congruence.
+        * intros u Hu Huoff. destruct (Hg u (or_intror Hu) Huoff) as [Heq|H]; [|exact H].
+          exfalso. rewrite Hto in Heq. injection Heq as _ Hi Hn.
+          assert (Hvu : valid sel u) by (rewrite Forall_forall in HvR'; now apply HvR').
+          assert (u = o).
+          { rewrite (valid_eta _ u Hvu), (valid_eta _ o Hvo), Hoo, Huoff. congruence. }
+          subst u. destruct (Hc o HoO) as (_ & Hlt). exact (tlt_irrefl _ (Hlt o (or_intror Hu))).
+        * (* the bounds for the rest of this step *)
+          intros u Hu Hus. unfold lowc. cbn [cs_onp cs_offkey].
+          assert (Hvu : valid sel u) by (rewrite Forall_forall in HvR'; now apply HvR').
+          split; [|intros _; exact I]. intros Huoff. split; [reflexivity|].
+          pose proof (HfR u Hu) as Hlt. unfold tlt in Hlt. rewrite Eoff, Huoff in Hlt.
+          assert (Hii : te_idx t < te_idx u) by (destruct Hlt as [H|(_ & [H|(_ & H & _)])]; [lia|exact H|discriminate]).
+          pose proof (valid_ord t u Hvt Hvu Hii) as Ho. rewrite Htn in Ho. unfold key_le. lia.
+      + (* NOTE_ON, possibly after a VELOCITY *)
+        cbn [negb]. rewrite andb_true_r.
+        set (b := vel_to_bin (n_vel (te_note t)) nb).
+        set (change := negb (nb =? 0) && negb (b =? vbin)).
+        assert (Hb : nb <> 0 -> 1 <= b).
+        { intros Hz. apply vel_to_bin_pos; [lia|]. apply Hvel, valid_in, Hvt. }
+        assert (Hve : exists c2,
+          (forall rest, pf_canon_scan_w nb ms ((if change then [(EV_VELOCITY, b) : pevent] else []) ++ rest) c1
+                        = pf_canon_scan_w nb ms rest c2) /\
+          cs_step c2 = cs_step c1 /\ cs_open c2 = cs_open c1 /\ cs_vbin c2 = (if change then b else vbin) /\
+          cs_offkey c2 = cs_offkey c1 /\ cs_onp c2 = cs_onp c1 /\ (nb <> 0 -> cs_vbin c2 <> 0)).
+        { unfold change. destruct (nb =? 0) eqn:E0; cbn [negb andb].
+          - exists c1. repeat split; auto. lia.
+          - destruct (b =? vbin) eqn:Eb; cbn [negb].
+            + exists c1. repeat split; auto. lia.
+            + exists (mkPfCst (cs_step c1) (cs_open c1) b PVel (cs_offkey c1) (cs_onp c1)).
+              split; [|cbn; repeat split; auto; lia].
+              intros rest. cbn [app pf_canon_scan_w]. rewrite step_vel_w; auto; lia. }
+        destruct Hve as (c2 & Hc2 & Hst2 & Hop2 & Hvb2 & Hok2 & Hon2 & Hnz2).
+        rewrite Hc2. clear Hc2. cbn [app pf_canon_scan_w].
+        assert (Hvst : te_step t = n_qstart (te_note t)) by (destruct Hvt as (_ & _ & H); now rewrite Eoff in H).
+        destruct (Hlow1 t (or_introl eq_refl) eq_refl) as (_ & Hlo). specialize (Hlo Eoff).
+        rewrite step_on_w; auto.
+        2:{ rewrite Hon2. exact Hlo. }
+        apply (IH (O ++ [t]) (te_step t) (if change then b else vbin)); auto.
+        * apply StronglySorted_snoc; [exact HsO|]. intros y Hy. destruct (Hc y Hy) as (_ & Hlt). apply Hlt. now left.
+        * apply Forall_app. split; [exact HvO|]. constructor; [exact Hvt|constructor].
+        * apply Forall_app. split; [exact HoffO|]. constructor; [exact Eoff|constructor].
+        * intros o Ho. apply in_app_or in Ho. destruct Ho as [Ho|[<-|[]]].
+          -- destruct (Hc o Ho) as (Hoff & Hlt). split; [|intros u Hu; apply Hlt; now right].
+             destruct Hoff as [Heq|H]; [|exact H]. apply (f_equal te_off) in Heq. cbn in Heq. congruence.
+          -- split; [|intros u Hu; now apply HfR].
+             destruct (Hg t (or_introl eq_refl) Eoff) as [Heq|H]; [|exact H].
+             apply (f_equal te_off) in Heq. cbn in Heq. congruence.
+        * intros u Hu Huoff. destruct (He u (or_intror Hu) Huoff) as [(o & Ho & Huo)|Hon].
+          -- left. exists o. split; [apply in_or_app; now left|exact Huo].
+          -- destruct Hon as [Heq|H]; [|right; exact H].
+             left. exists t. split; [apply in_or_app; right; now left|].
+             assert (Hvu : valid sel u) by (rewrite Forall_forall in HvR'; now apply HvR').
+             pose proof (valid_eta _ u Hvu) as Hu'. rewrite Huoff in Hu'. rewrite Hu', Heq. reflexivity.
+        * intros u Hu Huoff. destruct (Hg u (or_intror Hu) Huoff) as [Heq|H]; [|exact H].
+          apply (f_equal te_off) in Heq. cbn in Heq. congruence.
+        * cbn [cs_step]. lia.
+        * cbn [cs_open]. rewrite Hop2, Hop1, Hopen, map_app. cbn [map okey]. rewrite Hst2, Hst1. reflexivity.
+        * right. right. split; [reflexivity|]. intros H. apply app_eq_nil in H. destruct H; discriminate.
+        * intros u Hu Hus. unfold lowc. cbn [cs_onp cs_offkey].
+          assert (Hvu : valid sel u) by (rewrite Forall_forall in HvR'; now apply HvR').
+          pose proof (HfR u Hu) as Hlt. unfold tlt in Hlt. rewrite Eoff in Hlt.
+          pose proof (valid_len sel Hlen u Hvu) as Hlu.
+          split.
+          -- intros Huoff. exfalso. rewrite Huoff in Hlt.
+             assert (Hsu : te_step u = n_qend (te_note u)) by (destruct Hvu as (_ & _ & H); now rewrite Huoff in H).
+             destruct Hlt as [H|(_ & [H|(Hi & _)])]; [lia| |].
+             ++ pose proof (valid_ord t u Hvt Hvu H). lia.
+             ++ pose proof (valid_same_idx _ _ _ Hvt Hvu Hi) as Hn. rewrite Hn in Hvst. lia.
+          -- intros Huoff. rewrite Huoff in Hlt.
+             assert (Hsu : te_step u = n_qstart (te_note u)) by (destruct Hvu as (_ & _ & H); now rewrite Huoff in H).
+             destruct Hlt as [H|(_ & [H|(_ & _ & H)])]; [lia| |discriminate].
+             pose proof (valid_ord t u Hvt Hvu H). lia.
+  Qed.
+End StageW.
+
+Lemma no_nested_spec l : no_nested_same_pitch l = true ->
+  forall a b, In a l -> In b l -> n_pitch a = n_pitch b -> n_qstart a < n_qstart b -> n_qend a <= n_qend b.
+Proof.
+  unfold no_nested_same_pitch. intros H a b Ha Hb Hp Hs.
+  rewrite forallb_forall in H. specialize (H a Ha). rewrite forallb_forall in H. specialize (H b Hb). lia.
+Qed.
+
+Theorem extraction_canonical_perf_w : forall p ns,
+  perf_input_ok_w p ns ->
+  canonical_perf_w (fp_bins p) (fp_max_shift p) (pf_from_quantized p ns) = true.
+Proof.
+  intros p ns (Hms & Hnb & Hwf & Hno & Htf). unfold pf_from_quantized.
+  set (sel := pf_sorted_notes (fp_start p) (fp_instrument p) ns).
+  set (start := fp_start p). set (nb := fp_bins p) in *. set (ms := fp_max_shift p) in *.
+  assert (Hperm : Permutation sel (pf_selected p ns)) by apply isort_perm.
+  assert (Hsel_in : forall n, In n sel -> In n ns /\ start <= n_qstart n).
+  { intros n Hn. eapply Permutation_in in Hn; [|exact Hperm]. apply filter_In in Hn. destruct Hn as (Hn & Hk).
+    unfold pf_keep in Hk. split; [exact Hn|]. unfold start. lia. }
+  rewrite Forall_forall in Hwf.
+  assert (Hlen : forall n, In n sel -> n_qstart n < n_qend n) by (intros n Hn; apply Hwf, Hsel_in, Hn).
+  assert (Hvel : forall n, In n sel -> MIN_MIDI_VELOCITY <= n_vel n) by (intros n Hn; apply Hwf, Hsel_in, Hn).
+  assert (Hnest : forall a b, In a sel -> In b sel -> n_pitch a = n_pitch b ->
+            n_qstart a < n_qstart b -> n_qend a <= n_qend b).
+  { intros a b Ha Hb. apply (no_nested_spec _ Hno); eapply Permutation_in; eauto. }
+  assert (Hord : forall i j a b, (i < j)%nat -> nth_error sel i = Some a -> nth_error sel j = Some b ->
+            n_qstart a < n_qstart b \/ (n_qstart a = n_qstart b /\ n_pitch a <= n_pitch b)).
+  { intros i j a b Hij Ha Hb.
+    assert (Hs : StronglySorted (fun a b => pf_le a b = true) sel)
+      by (apply isort_sorted; [apply PC.pf_le_total|apply PC.pf_le_trans]).
+    pose proof (PC.ssorted_nth _ _ Hs i j a b Hij Ha Hb) as Hle. unfold pf_le in Hle.
+    pose proof (nth_error_In _ _ Ha) as Hia. pose proof (nth_error_In _ _ Hb) as Hib.
+    assert (Hsa : In a (pf_selected p ns)) by (eapply Permutation_in; eauto).
+    assert (Hsb : In b (pf_selected p ns)) by (eapply Permutation_in; eauto).
+    destruct (Htf a b Hsa Hsb) as (T1 & T2). destruct (Htf b a Hsb Hsa) as (T3 & T4). lia. }
+  set (tes := pf_note_events sel).
+  assert (Hvalid : Forall (valid sel) tes).
+  { apply Forall_forall. intros t Ht. apply In_note_events in Ht.
+    destruct Ht as (i & n & Hi & Hn & [-> | ->]); unfold valid; cbn; auto. }
+  set (c0 := mkPfCst 0 [] 0 PStart None None).
+  assert (H : exists cf, pf_canon_scan_w nb ms (pf_loop nb ms tes start 0) c0 = Some cf /\ cs_open cf = [] /\
+                         (cs_prev cf = PStart \/ cs_prev cf = POff)).
+  { apply (stageW sel start nb ms Hms Hnb Hlen Hvel Hord Hnest tes [] start 0 c0).
+    - apply sorted_strict; [apply note_events_sorted|].
+      eapply Permutation_NoDup; [apply Permutation_map; symmetry; apply isort_perm|].
+      rewrite map_app, !map_map. cbn [ik te_idx te_off].
+      apply nodup_app; [apply (nodup_enum false)|apply (nodup_enum true)|].
+      intros x Hx Hx'. apply in_map_iff in Hx. apply in_map_iff in Hx'.
+      destruct Hx as (y & <- & _). destruct Hx' as (z & Hz & _). discriminate.
+    - constructor.
+    - exact Hvalid.
+    - constructor.
+    - constructor.
+    - intros o [].
+    - intros t Ht Hoff. right. apply In_note_events in Ht.
+      destruct Ht as (i & n & Hi & Hn & [-> | ->]); [discriminate|].
+      cbn [te_idx te_note off_of]. apply In_note_events. exists i, n. auto.
+    - intros t Ht Hoff. apply In_note_events in Ht.
+      destruct Ht as (i & n & Hi & Hn & [-> | ->]); [|discriminate].
+      cbn [te_idx te_note on_of]. apply In_note_events. exists i, n. auto.
+    - intros t Ht. apply In_note_events in Ht. destruct Ht as (i & n & Hi & Hn & Hcase).
+      apply nth_error_In in Hn. pose proof (Hlen n Hn). destruct (Hsel_in n Hn) as (_ & Hs).
+      destruct Hcase as [-> | ->]; cbn; lia.
+    - cbn. lia.
+    - reflexivity.
+    - reflexivity.
+    - now left.
+    - intros t _ _. split; intros _; [split; reflexivity|exact I]. }
+  destruct H as (cf & Hscan & Hopen & Hprev).
+  unfold canonical_perf_w. fold c0. fold tes. rewrite Hscan, Hopen. cbn [is_nil andb].
+  destruct Hprev as [-> | ->]; reflexivity.
+Qed.
+
+(** * round trip: decoder state with creation ranks (the NOTE_ON index of every note) *)
+Definition ent : Type := (entry * Z)%type.               (* (pitch, start, velocity), rank *)
+Definition e_p (x : ent) : Z := fst (fst (fst x)).
+Definition e_s (x : ent) : Z := snd (fst (fst x)).
+Definition e_v (x : ent) : Z := snd (fst x).
+Definition e_r (x : ent) : Z := snd x.
+Definition pq4 (x : ent) : Z * Z := (e_p x, e_s x).
+
+Fixpoint take4 (pitch : Z) (op : list ent) : option (ent * list ent) :=
+  match op with
+  | [] => None
+  | x :: r => if e_p x =? pitch then Some (x, r)
+              else match take4 pitch r with Some (y, r') => Some (y, x :: r') | None => None end
+  end.
+
+Lemma take_open_map4 v op :
+  take_open v (map pq4 op)
+  = match take4 v op with None => None | Some (x, op') => Some (pq4 x, map pq4 op') end.
+Proof.
+  induction op as [|x op IH]; cbn [map take_open take4 pq4]; [reflexivity|].
+  destruct (e_p x =? v); [reflexivity|]. fold (pq4 x). rewrite IH.
+  destruct (take4 v op) as [[y r']|]; reflexivity.
+Qed.
+
+Lemma take_first_map4 v op :
+  take_first v (map fst op)
+  = match take4 v op with None => None | Some (x, op') => Some (fst x, map fst op') end.
+Proof.
+  induction op as [|[[[q s] w] k] op IH]; cbn [map fst take_first take4 e_p]; [reflexivity|].
+  destruct (q =? v); [reflexivity|]. rewrite IH.
+  destruct (take4 v op) as [[y r']|]; reflexivity.
+Qed.
+
+Lemma take4_split v : forall op x op', take4 v op = Some (x, op') ->
+  exists l1 l2, op = l1 ++ x :: l2 /\ op' = l1 ++ l2 /\ e_p x = v /\ forall y, In y l1 -> e_p y <> v.
+Proof.
+  induction op as [|z op IH]; intros x op'; cbn [take4]; [discriminate|].
+  destruct (e_p z =? v) eqn:E.
+  - intros H. injection H as <- <-. exists [], op. cbn [app]. repeat split; [lia|intros y []].
+  - destruct (take4 v op) as [[y r']|] eqn:E2; [|discriminate]. intros H. injection H as <- <-.
+    destruct (IH _ _ eq_refl) as (l1 & l2 & -> & -> & Hp & Hl1).
+    exists (z :: l1), l2. repeat split; auto. intros y' [<-|Hy]; [lia|auto].
+Qed.
+
+Fixpoint dec4 (nb start : Z) (evs : list pevent) (step vel : Z) (op : list ent) (cnt : Z)
+  : list (snote * Z) :=
+  match evs with
+  | [] =>
+      map (fun x : ent => let '(q, s, v, k) := x in ((q, s + start, step + start, v), k))
+          (filter (fun x : ent => let '(q, s, v, k) := x in negb (step =? s)) op)
+  | (ty, val) :: r =>
+      if ty =? EV_NOTE_ON then dec4 nb start r step vel (op ++ [((val, step, vel), cnt)]) (cnt + 1)
+      else if ty =? EV_NOTE_OFF then
+        match take4 val op with
+        | None => dec4 nb start r step vel op cnt
+        | Some ((q, s, v, k), op') =>
+            if step =? s then dec4 nb start r step vel op' cnt
+            else ((q, s + start, step + start, v), k) :: dec4 nb start r step vel op' cnt
+        end
+      else if ty =? EV_TIME_SHIFT then dec4 nb start r (step + val) vel op cnt
+      else if ty =? EV_VELOCITY then dec4 nb start r step (bin_to_vel val nb) op cnt
+      else []
+  end.
+
+Lemma dec4_strip nb start : forall es step vel op cnt,
+  map fst (dec4 nb start es step vel op cnt) = pf_decode nb start es step vel (map fst op).
+Proof.
+  induction es as [|[ty v] r IH]; intros step vel op cnt; cbn [dec4 pf_decode].
+  - induction op as [|[[[q s] w] k] op IHo]; cbn [map filter fst]; [reflexivity|].
+    destruct (negb (step =? s)); cbn [map fst]; rewrite IHo; reflexivity.
+  - destruct (ty =? EV_NOTE_ON).
+    { rewrite IH, map_app. reflexivity. }
+    destruct (ty =? EV_NOTE_OFF).
+    { rewrite take_first_map4. destruct (take4 v op) as [[[[[q s] w] k] op']|]; [|apply IH].
+      cbn [fst]. destruct (step =? s); [apply IH|]. cbn [map fst]. now rewrite IH. }
+    destruct (ty =? EV_TIME_SHIFT); [apply IH|].
+    destruct (ty =? EV_VELOCITY); [apply IH|reflexivity].
+Qed.
+
+Lemma dec4_on nb start v r step vel op cnt :
+  dec4 nb start ((EV_NOTE_ON, v) :: r) step vel op cnt
+  = dec4 nb start r step vel (op ++ [((v, step, vel), cnt)]) (cnt + 1).
+Proof. reflexivity. Qed.
+Lemma dec4_off nb start v r step vel op cnt :
+  dec4 nb start ((EV_NOTE_OFF, v) :: r) step vel op cnt
+  = match take4 v op with
+    | None => dec4 nb start r step vel op cnt
+    | Some ((q, s, w, k), op') =>
+        if step =? s then dec4 nb start r step vel op' cnt
+        else ((q, s + start, step + start, w), k) :: dec4 nb start r step vel op' cnt
+    end.
+Proof. reflexivity. Qed.
+Lemma dec4_shift nb start v r step vel op cnt :
+  dec4 nb start ((EV_TIME_SHIFT, v) :: r) step vel op cnt = dec4 nb start r (step + v) vel op cnt.
+Proof. reflexivity. Qed.
+Lemma dec4_vel nb start v r step vel op cnt :
+  dec4 nb start ((EV_VELOCITY, v) :: r) step vel op cnt = dec4 nb start r step (bin_to_vel v nb) op cnt.
+Proof. reflexivity. Qed.
+
+(** the timed reading; [m_ns] holds the rank of the note *)
+Fixpoint Tm4 (nb start : Z) (es : list pevent) (step vel : Z) (op : list ent) (cnt : Z) : list PC.med :=
+  match es with
+  | [] => []
+  | (ty, val) :: r =>
+      if ty =? EV_NOTE_ON then
+        PC.mkMed (step + start) false val cnt vel
+          :: Tm4 nb start r step vel (op ++ [((val, step, vel), cnt)]) (cnt + 1)
+      else if ty =? EV_NOTE_OFF then
+        match take4 val op with
+        | None => Tm4 nb start r step vel op cnt
+        | Some ((q, s, v, k), op') => PC.mkMed (step + start) true q k v :: Tm4 nb start r step vel op' cnt
+        end
+      else if ty =? EV_TIME_SHIFT then Tm4 nb start r (step + val) vel op cnt
+      else if ty =? EV_VELOCITY then Tm4 nb start r step (bin_to_vel val nb) op cnt
+      else []
+  end.
+
+Lemma Tm4_on nb start v r step vel op cnt :
+  Tm4 nb start ((EV_NOTE_ON, v) :: r) step vel op cnt
+  = PC.mkMed (step + start) false v cnt vel :: Tm4 nb start r step vel (op ++ [((v, step, vel), cnt)]) (cnt + 1).
+Proof. reflexivity. Qed.
+Lemma Tm4_off nb start v r step vel op cnt :
+  Tm4 nb start ((EV_NOTE_OFF, v) :: r) step vel op cnt
+  = match take4 v op with
+    | None => Tm4 nb start r step vel op cnt
+    | Some ((q, s, w, k), op') => PC.mkMed (step + start) true q k w :: Tm4 nb start r step vel op' cnt
+    end.
+Proof. reflexivity. Qed.
+Lemma Tm4_shift nb start v r step vel op cnt :
+  Tm4 nb start ((EV_TIME_SHIFT, v) :: r) step vel op cnt = Tm4 nb start r (step + v) vel op cnt.
+Proof. reflexivity. Qed.
+Lemma Tm4_vel nb start v r step vel op cnt :
+  Tm4 nb start ((EV_VELOCITY, v) :: r) step vel op cnt = Tm4 nb start r step (bin_to_vel v nb) op cnt.
+Proof. reflexivity. Qed.
+
+(** the open list is in NOTE_ON order: ranks increase, keys (start, pitch) do not decrease *)
+Definition kle (x y : ent) : Prop := e_s x < e_s y \/ (e_s x = e_s y /\ e_p x <= e_p y).
+Definition oord (x y : ent) : Prop := e_r x < e_r y /\ kle x y.
+
+Definition Inv (c : pf_cst) (op : list ent) (cnt : Z) : Prop :=
+  StronglySorted oord op /\
+  Forall (fun x => e_r x < cnt /\ 0 <= e_s x /\
+                   (e_s x < cs_step c \/ (e_s x = cs_step c /\ exists q0, cs_onp c = Some q0 /\ e_p x <= q0))) op /\
+  0 <= cs_step c.
+
+Section ScanW.
+  Variables nb ms : Z.
+  Variable cf : pf_cst.
+  Variable Q : list pevent -> pf_cst -> Z -> list ent -> Z -> Prop.
+
+  Hypothesis Hnil : forall vel op cnt, cs_open cf = map pq4 op -> Inv cf op cnt -> Q [] cf vel op cnt.
+  Hypothesis Hon : forall v r c vel op cnt, cs_open c = map pq4 op -> Inv c op cnt ->
+    (nb <> 0 -> cs_vbin c <> 0) ->
+    match cs_onp c with None => True | Some q => q <= v end ->
+    let c' := mkPfCst (cs_step c) (cs_open c ++ [(v, cs_step c)]) (cs_vbin c) POn (cs_offkey c) (Some v) in
+    let op' := op ++ [((v, cs_step c, vel), cnt)] in
+    pf_canon_scan_w nb ms r c' = Some cf -> cs_open c' = map pq4 op' -> Inv c' op' (cnt + 1) ->
+    Q r c' vel op' (cnt + 1) ->
+    Q ((EV_NOTE_ON, v) :: r) c vel op cnt.
+  Hypothesis Hoff : forall v r c vel op cnt s w k l1 l2, cs_open c = map pq4 op -> Inv c op cnt ->
+    op = l1 ++ ((v, s, w), k) :: l2 -> (forall y, In y l1 -> e_p y <> v) ->
+    take4 v op = Some (((v, s, w), k), l1 ++ l2) ->
+    cs_prev c <> PVel -> cs_onp c = None -> key_le (cs_offkey c) s v = true -> s < cs_step c ->
+    let c' := mkPfCst (cs_step c) (map pq4 (l1 ++ l2)) (cs_vbin c) POff (Some (s, v)) None in
+    pf_canon_scan_w nb ms r c' = Some cf -> Inv c' (l1 ++ l2) cnt ->
+    Q r c' vel (l1 ++ l2) cnt ->
+    Q ((EV_NOTE_OFF, v) :: r) c vel op cnt.
+  Hypothesis Hshift : forall v r c vel op cnt, cs_open c = map pq4 op -> Inv c op cnt ->
+    cs_prev c <> PVel -> 1 <= v <= ms -> (forall u, cs_prev c = PShift u -> u = ms) ->
+    let c' := mkPfCst (cs_step c + v) (cs_open c) (cs_vbin c) (PShift v) None None in
+    pf_canon_scan_w nb ms r c' = Some cf -> Inv c' op cnt ->
+    Q r c' vel op cnt ->
+    Q ((EV_TIME_SHIFT, v) :: r) c vel op cnt.
+  Hypothesis Hvel : forall v r c vel op cnt, cs_open c = map pq4 op -> Inv c op cnt ->
+    nb <> 0 -> cs_prev c <> PVel -> 1 <= v -> v <> cs_vbin c ->
+    let c' := mkPfCst (cs_step c) (cs_open c) v PVel (cs_offkey c) (cs_onp c) in
+    pf_canon_scan_w nb ms r c' = Some cf -> Inv c' op cnt ->
+    Q r c' (bin_to_vel v nb) op cnt ->
+    Q ((EV_VELOCITY, v) :: r) c vel op cnt.
+
+  Lemma scan_rect_w : forall es c vel op cnt,
+    pf_canon_scan_w nb ms es c = Some cf -> cs_open c = map pq4 op -> Inv c op cnt -> Q es c vel op cnt.
+  Proof.
+    induction es as [|[ty v] r IH]; intros c vel op cnt Hs Hop HI; cbn [pf_canon_scan_w] in Hs.
+    - injection Hs as ->. now apply Hnil.
+    - destruct (pf_canon_step_w nb ms c (ty, v)) as [c'|] eqn:E; [|discriminate].
+      unfold pf_canon_step_w in E.
+      assert (Hnv : forall k, is_pvel k = false -> k <> PVel) by (intros k Hk ->; discriminate).
+      pose proof HI as HI0. destruct HI as (Hso & Hfo & H0). rewrite Forall_forall in Hfo.
+      destruct (ty =? EV_NOTE_ON) eqn:T1.
+      { apply Z.eqb_eq in T1. subst ty.
+        destruct (negb (nb =? 0) && (cs_vbin c =? 0)) eqn:A1; cbn [orb] in E; [discriminate|].
+        destruct (match cs_onp c with None => true | Some q => q <=? v end) eqn:A3; cbn [negb] in E; [|discriminate].
+        injection E as <-.
+        assert (Honp : match cs_onp c with None => True | Some q => q <= v end)
+          by (destruct (cs_onp c); [lia|exact I]).
+        assert (Hop' : cs_open c ++ [(v, cs_step c)] = map pq4 (op ++ [((v, cs_step c, vel), cnt)]))
+          by (rewrite Hop, map_app; reflexivity).
+        assert (HI' : Inv (mkPfCst (cs_step c) (cs_open c ++ [(v, cs_step c)]) (cs_vbin c) POn (cs_offkey c) (Some v))
+                          (op ++ [((v, cs_step c, vel), cnt)]) (cnt + 1)).
+        { unfold Inv. cbn [cs_step cs_onp]. split; [|split; [|exact H0]].
+          - apply StronglySorted_snoc; [exact Hso|]. intros y Hy. destruct (Hfo y Hy) as (Hr & _ & Hk).
+            unfold oord, kle. cbn [e_r e_s e_p fst snd]. split; [exact Hr|].
+            destruct Hk as [Hk|(Hk & q0 & Hq0 & Hq)]; [now left|right]. split; [exact Hk|].
+            rewrite Hq0 in Honp. lia.
+          - apply Forall_app. split.
+            + apply Forall_forall. intros y Hy. destruct (Hfo y Hy) as (Hr & Hs0 & Hk).
+              split; [lia|]. split; [exact Hs0|].
+              destruct Hk as [Hk|(Hk & q0 & Hq0 & Hq)]; [now left|right]. split; [exact Hk|].
+              exists v. split; [reflexivity|]. rewrite Hq0 in Honp. lia.
+            + constructor; [|constructor]. cbn [e_r e_s e_p fst snd]. split; [lia|]. split; [exact H0|].
+              right. split; [reflexivity|]. exists v. split; [reflexivity|lia]. }
+        apply (Hon v r c vel op cnt); auto; try lia; try exact HI0.
+        all: try (apply IH; auto). }
+      destruct (ty =? EV_NOTE_OFF) eqn:T2.
+      { apply Z.eqb_eq in T2. subst ty.
+        destruct (is_pvel (cs_prev c)) eqn:A1; cbn [orb] in E; [discriminate|].
+        destruct (cs_onp c) eqn:A2; cbn [negb] in E; [discriminate|].
+        rewrite Hop, take_open_map4 in E.
+        destruct (take4 v op) as [[[[[q s] w] k] op']|] eqn:A3; [|discriminate].
+        cbn [pq4 e_p e_s fst snd] in E.
+        destruct (key_le (cs_offkey c) s q) eqn:A4; cbn [andb] in E; [|discriminate].
+        destruct (s <? cs_step c) eqn:A5; [|discriminate].
+        injection E as <-.
+        destruct (take4_split _ _ _ _ A3) as (l1 & l2 & Hsplit & -> & Hq & Hl1). cbn [e_p fst] in Hq. subst q.
+        assert (HI' : Inv (mkPfCst (cs_step c) (map pq4 (l1 ++ l2)) (cs_vbin c) POff (Some (s, v)) None) (l1 ++ l2) cnt).
+        { unfold Inv. cbn [cs_step cs_onp]. split; [|split; [|exact H0]].
+          - rewrite Hsplit in Hso. eapply StronglySorted_remove; exact Hso.
+          - apply Forall_forall. intros y Hy.
+            assert (Hy' : In y op).
+            { rewrite Hsplit. apply in_app_or in Hy. apply in_or_app. destruct Hy; [now left|right; now right]. }
+            destruct (Hfo y Hy') as (Hr & Hs0 & Hk). split; [exact Hr|]. split; [exact Hs0|].
+            destruct Hk as [Hk|(_ & q0 & Hq0 & _)]; [now left|discriminate]. }
+        apply (Hoff v r c vel op cnt s w k l1 l2); auto; try lia;
+          try exact HI0.
+        all: try (apply IH; auto). }
+      destruct (ty =? EV_TIME_SHIFT) eqn:T3.
+      { apply Z.eqb_eq in T3. subst ty.
+        destruct (is_pvel (cs_prev c)) eqn:A1; cbn [orb] in E; [discriminate|].
+        destruct ((1 <=? v) && (v <=? ms)) eqn:A2; cbn [negb orb] in E; [|discriminate].
+        destruct (match cs_prev c with PShift u => u =? ms | _ => true end) eqn:A3; cbn [negb] in E; [|discriminate].
+        injection E as <-.
+        assert (HI' : Inv (mkPfCst (cs_step c + v) (cs_open c) (cs_vbin c) (PShift v) None None) op cnt).
+        { unfold Inv. cbn [cs_step cs_onp]. split; [exact Hso|]. split; [|lia].
+          apply Forall_forall. intros y Hy. destruct (Hfo y Hy) as (Hr & Hs0 & Hk).
+          split; [exact Hr|]. split; [exact Hs0|]. left. lia. }
+        apply (Hshift v r c vel op cnt); auto; try lia;
+          try exact HI0;
+          try (intros u Hu; rewrite Hu in A3; lia).
+        all: try (apply IH; auto). }
+      destruct (ty =? EV_VELOCITY) eqn:T4; [|discriminate].
+      apply Z.eqb_eq in T4. subst ty.
+      destruct (nb =? 0) eqn:A0; cbn [orb] in E; [discriminate|].
+      destruct (is_pvel (cs_prev c)) eqn:A1; cbn [orb] in E; [discriminate|].
+      destruct (1 <=? v) eqn:A2; cbn [negb orb] in E; [|discriminate].
+      destruct (v =? cs_vbin c) eqn:A3; [discriminate|].
+      injection E as <-.
+      assert (HI' : Inv (mkPfCst (cs_step c) (cs_open c) v PVel (cs_offkey c) (cs_onp c)) op cnt).
+      { unfold Inv. cbn [cs_step cs_onp]. split; [exact Hso|]. split; [now apply Forall_forall|exact H0]. }
+      apply (Hvel v r c vel op cnt); auto; try lia;
+        try exact HI0.
+      all: try (apply IH; auto).
+  Qed.
+End ScanW.
+
 End PW.
